@@ -154,8 +154,12 @@ class Similar:
         sig = {"name": name.split(":")[0], "mode": self.mode}
         if self.mode == "scale":
             sig["scale_below_5e-2"] = bool(xs[0] < F(1, 20))
+            # the scaled drawing has a vertex of one operand within 1e-5 of the other's boundary without touching it
+            d2 = near_contact_d2([base_pts(self.A, (0, 0), self.rot)], [base_pts(self.B, self.rel, self.rot)])
+            sig["scaled_detail_below_1e-5"] = bool(d2 is not None and d2 * F(xs[0]) ** 2 < F(1, 10**10))
         if exc:
             sig["exc"] = exc["exc"]
+            sig["func"] = exc["where"][1]
         return sig
 
 
@@ -228,6 +232,9 @@ def specs(tier):
         for op in ["|", "&", "-", "^"]:
             for mode in ("scale", "translate"):
                 out.append(dict(module=Mo, scenario="Similar", params=dict(A=A, B=B, op=op, mode=mode), time_budget=120 if tier == "quick" else 1500))
+    for op in ["|", "&", "-", "^"]:  # fine detail (5e-4) in a drawing of size 2, anywhere up to 1e6 from the origin and at every scale
+        for mode in ("scale", "translate"):
+            out.append(dict(module=Mo, scenario="Similar", params=dict(A="square", B="sliver", op=op, mode=mode, rel=["0", "0"]), time_budget=120 if tier == "quick" else 1500))
     for rot in ["345", "51213", "neg345"]:
         for op in ("|", "-"):
             out.append(dict(module=Mo, scenario="Similar", params=dict(A="square", B="unit", op=op, mode="scale", rot=rot), time_budget=120 if tier == "quick" else 1500))
